@@ -205,8 +205,8 @@ fn contained_topics(with_cft: bool) {
     core::mem::forget(p);
 }
 
-// @check props=C36 tier=quick known=KF-C36-1
-// @desc KNOWN FINDING: a participant on which a content-filtered topic was created (and deleted with delete_content_filtered_topic, which returns Ok) is NOT empty after delete_participant_contained_entities: content_filtered_topic_list is never cleared by any operation, so is_participant_empty() stays false and DcpsParticipantFactory::delete_participant fails with PreconditionNotMet forever
+// @check props=C36 tier=quick
+// @desc OBSERVATION FROM CODE READING, not confirmed by a completed run (expected to fail on the current tree): a participant on which a content-filtered topic was created (and deleted with delete_content_filtered_topic, which returns Ok) is NOT empty after delete_participant_contained_entities: content_filtered_topic_list is never cleared by any operation, so is_participant_empty() stays false and DcpsParticipantFactory::delete_participant fails with PreconditionNotMet forever
 // @bounds one topic (real create_topic), one content-filtered topic (real create_content_filtered_topic + delete_content_filtered_topic)
 // @assume trigger: a content-filtered topic was created on the participant
 // @assume stub: TypeInformation::from(DynamicType) returns a fixed value; stub: alloc::fmt::format returns an empty String
